@@ -236,6 +236,47 @@ def r4(ctx):
     ctx.ob("toggle is RMW", all([a[0] for a in r["atomics"]] == ["fetch_xor"] for r in rows), "toggle is not a single fetch_xor (a load+store pair can lose a concurrent update)", site=site)
 
 
+NOT_SYNC_ADTS = ("core::cell::Cell", "core::cell::RefCell", "core::cell::UnsafeCell", "core::cell::OnceCell", "alloc::rc::Rc", "alloc::rc::Weak")
+NOT_SEND_ADTS = ("alloc::rc::Rc", "alloc::rc::Weak", "std::sync::mutex::MutexGuard", "std::sync::poison::mutex::MutexGuard", "std::sync::rwlock::RwLockReadGuard", "std::sync::rwlock::RwLockWriteGuard")
+
+
+def _not_auto(tj, which):
+    """the auto-trait rules over a type's structure: True if the type is certainly !Send (which='send') / !Sync (which='sync')"""
+    k = tj.get("k")
+    if k in ("ptr", "rawptr"):
+        return True
+    if k == "ref":
+        inner = tj.get("to") or {}
+        # &T: Send iff T: Sync; &mut T: Send iff T: Send; &T / &mut T: Sync iff T: Sync
+        return _not_auto(inner, "sync") if (which == "sync" or not tj.get("mut")) else _not_auto(inner, "send")
+    if k == "adt":
+        a = tj.get("adt", "")
+        if which == "sync" and a in NOT_SYNC_ADTS:
+            return True
+        if which == "send" and a in NOT_SEND_ADTS:
+            return True
+        return any(_not_auto(x, which) for x in tj.get("args", []) if isinstance(x, dict) and x.get("k") not in ("const",))
+    if k == "tuple":
+        return any(_not_auto(x, which) for x in tj.get("of", []))
+    if k == "array":
+        return _not_auto(tj.get("of") or {}, which)
+    return False
+
+
+@rule("C20.R5", "a saved override cannot leave its thread: LocalEnableState is !Send by the structure of its fields")
+def r5(ctx):
+    """restore() writes the saved value into the *calling* thread's override; a saved state that could be moved to another thread would
+    overwrite that thread's override with this one's. The type keeps it home through a marker field (auto-trait rules over the field types)."""
+    P = ctx.P
+    a = P.adt(TE + "LocalEnableState")
+    fs = a["variants"][0]["fields"]
+    pinned = [f["name"] for f in fs if _not_auto(f.get("tj") or {}, "send")]
+    has_unsafe_send = any(i.get("self") == TE + "LocalEnableState" and i.get("trait") in ("core::marker::Send", "core::marker::Sync") for i in P.impls)
+    ctx.ob("LocalEnableState !Send", bool(pinned) and not has_unsafe_send, f"LocalEnableState has no field whose type is !Send (fields: {[(f['name'], f['ty']) for f in fs]})"
+           + ("; and an explicit Send/Sync impl" if has_unsafe_send else "") + ": a saved override can be moved to another thread and restored there",
+           site=a.get("span"), sample={"marker fields": pinned})
+
+
 @rule("C20.W", "type-level: compile-fail witnesses with compiling twins (K6; thorough tier)")
 def rw(ctx):
     from analysis import witness
